@@ -341,6 +341,7 @@ compute_transformed_extents (pixman_transform_t   *transform,
 {
     pixman_fixed_48_16_t tx1, ty1, tx2, ty2;
     pixman_fixed_t x1, y1, x2, y2;
+    pixman_bool_t w_negative = FALSE;
     int i;
 
     x1 = pixman_int_to_fixed (extents->x1) + pixman_fixed_1 / 2;
@@ -369,6 +370,24 @@ compute_transformed_extents (pixman_transform_t   *transform,
 	v.vector[0] = (i & 0x01)? x1 : x2;
 	v.vector[1] = (i & 0x02)? y1 : y2;
 	v.vector[2] = pixman_fixed_1;
+
+	/* The rectangle is mapped into the hull of its transformed corners
+	 * only if the homogeneous coordinate keeps its sign across it; it
+	 * is linear, so it is enough to look at the corners.  Where it
+	 * changes sign the interior is mapped arbitrarily far away.
+	 */
+	if (transform->matrix[2][0] || transform->matrix[2][1])
+	{
+	    pixman_vector_t h = v;
+
+	    if (!pixman_transform_point_3d (transform, &h) ||
+		h.vector[2] == 0					 ||
+		(i == 0 ? FALSE : (h.vector[2] < 0) != w_negative))
+	    {
+		return FALSE;
+	    }
+	    w_negative = h.vector[2] < 0;
+	}
 
 	if (!pixman_transform_point (transform, &v))
 	    return FALSE;
